@@ -5,6 +5,7 @@ import Csproto.Bridge.WireFuncs2
 import Csproto.Bridge.DecoderFuncs
 import Csproto.Bridge.SkipFuncs
 import Csproto.Props.C02Source
+import Csproto.Props.C02SourceWalk
 import Csproto.Bridge.EncoderFuncs
 import Csproto.Bridge.PackedEncFuncs
 /- axiom audit for C02 -/
@@ -90,3 +91,5 @@ open Csproto
 #print axioms Csproto.Bridge.EncoderFuncs.EncodeBytes_refines
 #print axioms Csproto.Bridge.PackedEncFuncs.bool_loop
 #print axioms Csproto.Bridge.PackedEncFuncs.EncodePackedBool_refines
+#print axioms Csproto.C02.Source.skip_step
+#print axioms Csproto.C02.Source.skip_walk
